@@ -119,8 +119,9 @@ CommitInsD(k, sh, st, used, dk) ==
     /\ ideal[k].rc = 0
     /\ k \notin locked     \* a key is not inserted again while a reader holds the old tree under it
     /\ dk # 0 => (Swap /\ ~AO /\ dk # k /\ ideal[dk].rc > 0 /\ VisibleRoot(dk).rc > 0)
-    /\ LET f == Flat(sh, nextId)
-           root == [rc |-> 1, data |-> nextCid, kids |-> f.kids]
+    \* (bound by a quantifier: TLC evaluates a LET definition again at every use, which is quadratic for wide trees)
+    /\ \E f \in {Flat(sh, nextId)} :
+       LET root == [rc |-> 1, data |-> nextCid, kids |-> f.kids]
            tx == [cid |-> nextCid,
                   tree |-> [t |-> "ins", k |-> k, root |-> root, new |-> f.new,
                            incs |-> IF AO THEN <<>> ELSE f.incs,
@@ -128,8 +129,8 @@ CommitInsD(k, sh, st, used, dk) ==
                   set |-> st,
                   used |-> used] IN
        /\ f.next - 1 <= MaxIds
-       /\ nkids' = [n \in Ids |-> IF \E i \in DOMAIN f.new : f.new[i].id = n
-                                  THEN (CHOOSE e \in SeqSet(f.new) : e.id = n).kids ELSE nkids[n]]
+       \* (new nodes have the consecutive ids nextId .. f.next - 1, listed in that order)
+       /\ nkids' = [n \in Ids |-> IF n >= nextId /\ n < f.next THEN f.new[n - nextId + 1].kids ELSE nkids[n]]
        /\ nrc' = [n \in Ids |-> IF n >= nextId /\ n < f.next THEN 1 ELSE nrc[n]]
        /\ nextId' = f.next
        /\ covlT' = [covlT EXCEPT ![k] = [cid |-> nextCid, root |-> root]]
